@@ -22,7 +22,9 @@ CHECK = {
              "when the reachable ball lies on one side of the map edge), per call and cumulatively; "
              "32 helix samples for skipped volumes; a reported landing can be crossed. RZMapField values at "
              "geometry points, mirror images, the axis, a lattice over and beyond each map and the map "
-             "edges/grid lines +-1 ulp against a long-double re-interpolation of the input tables. "
+             "edges/grid lines +-1 ulp against a long-double re-interpolation of the input tables, incl. a hollow "
+             "map (min_r = 2.5, z in [3,17]) that is value-checked only; the params' driver options equal "
+             "RZMapFieldInput::driver_options (non-default in two of the four maps). "
              "FieldPropagator::operator()() (no step limit) from interior starts. With max_nsteps in {1,3,10} "
              "the FieldDriver calls are replayed from the recorded stepper applications and a violation is "
              "attributed to a trial-loop exhaustion only when it was observed in the judged call. non-trivial = a trajectory that reached something "
@@ -62,12 +64,16 @@ CHECK = {
         "the z axis, positive helicity, dir_y != 0, up to the first boundary landing); the four ways of "
         "leaving it are exercised once each (case ids zhx=1..4) and reported",
     ],
-    "bounds": {"quick": {"stepper_field_pairs": 15, "options": 9, "ratios": 9, "steps": "7 (+2 sub-resolution)",
-                         "k": [1, 2, 5], "rzmap_value_points": 2970, "nolimit_cases": 2832,
+    "bounds": {"quick": {"stepper_field_pairs": 15, "options": 9,
+                         "species": "e-, e+ on the whole lattice; alpha (q=+2, m=3727.379) and neutral (q=0, m=0) on "
+                                    "the sub-lattice default options x radius idx 3..5 x non-ZHelix B != 0 (195 blocks)", "ratios": 9, "steps": "7 (+2 sub-resolution)",
+                         "k": [1, 2, 5], "rzmap_value_points": 4095, "rz_maps": "rzu, rzs, rzi (tight driver_options), rzh (hollow, value only)", "nolimit_cases": 2832,
                          "thinning": "checkerboard half of (interior point, direction), of (start, step) "
                                      "with a block-dependent colour, and of (radius, options, charge); "
                                      "5 tangent angles"},
-               "thorough": {"stepper_field_pairs": 31, "options": 10, "ratios": 9,
+               "thorough": {"stepper_field_pairs": 31, "options": 10,
+                            "species": "e-, e+ on the whole lattice; alpha and neutral on the sub-lattice default "
+                                       "options x radius idx 3..5 x non-ZHelix B != 0", "ratios": 9,
                             "steps": "7 (+2 sub-resolution)", "k": [1, 2, 5],
                             "thinning": "checkerboard half of (start, step) with a block-dependent colour, "
                                         "none for head-on and redirected on-boundary starts; 7 tangent "
